@@ -5,10 +5,11 @@
 (* printed as the action path that reaches it (history variable `path`,    *)
 (* hidden from the fingerprint by VIEW), which the Rust harness replays.   *)
 (***************************************************************************)
-EXTENDS AnyVec, Json, TLC
+EXTENDS AnyVec, Json, TLC, TLCExt
 
 CONSTANTS Alpha,      \* set of enabled operation names
-          MaxLen, MaxExt, MaxOut, MaxRepl, MaxIters, MaxDepth,
+          MaxLen, MaxLenB, MaxExt, MaxOut, MaxRepl, MaxIters,
+          OneHandle,  \* TRUE: at most one vector has an outstanding handle at a time (bounds the product space)
           Srcs,       \* value-source kinds for push/insert/splice: subset of {"wrapper","raw","typed"}
           Forms       \* RangeBounds forms: subset of {"x..y","x..=y","..y","..=y","x..","..","x<..y","x<..=y","x<.."}
 
@@ -18,28 +19,34 @@ CfgHeapCap == [CfgHeap EXCEPT !.trackcap = TRUE]
 CfgFixed2  == [CfgHeap EXCEPT !.fixed = TRUE, !.fcap = 2]
 CfgFixed3  == [CfgHeap EXCEPT !.fixed = TRUE, !.fcap = 3]
 
-VARIABLES st, path
-vars == <<st, path>>
+VARIABLES st,    \* the contract state
+          nid,   \* number of the transition that first reached this state (hidden from the fingerprint by VIEW)
+          last   \* the action of that transition (hidden as well)
+vars == <<st, nid, last>>
 
 S(k, to, i) == [k |-> k, to |-> to, i |-> i]
 Len0(x) == Len(st.v[x].el)
+CapOf(x) == IF x = "a" THEN MaxLen ELSE MaxLenB    \* exploration bound on the length of each vector
 
 Sinks(x, kinds) ==
   {S(k, "", 0) : k \in kinds \cap ({"drop", "forget", "keep"} \cup IF Len(st.ext) < MaxExt THEN {"ext"} ELSE {})}
   \cup (IF "push" \in kinds
-        THEN {S("push", w, 0) : w \in {w \in Vecs \ {x} : Quiet(st, w) /\ (Len0(w) < MaxLen \/ Cfg.fixed)}} ELSE {})
+        THEN {S("push", w, 0) : w \in {w \in Vecs \ {x} : Quiet(st, w) /\ (Len0(w) < CapOf(w) \/ Cfg.fixed)}} ELSE {})
   \cup (IF "insert" \in kinds
         THEN UNION {{S("insert", w, i) : i \in 0..(Len0(w) + 1)} :
-                    w \in {w \in Vecs \ {x} : Quiet(st, w) /\ (Len0(w) < MaxLen \/ Cfg.fixed)}} ELSE {})
+                    w \in {w \in Vecs \ {x} : Quiet(st, w) /\ (Len0(w) < CapOf(w) \/ Cfg.fixed)}} ELSE {})
 
 AllSinks == {"drop", "ext", "push", "insert", "forget"}
 MutCount == Cardinality({i \in 1..Len(AllElems(st)) : AllElems(st)[i][2] = 1})
 
-Do(a) == /\ Len(path) < MaxDepth
-         /\ LET r == Apply(st, a, Fresh(st, MaxRepl + 1)) IN
+(* Every generated transition gets a fresh number from a TLC register (run with -workers 1).  Since the state TLC   *)
+(* keeps for a fingerprint is the first one generated, `nid` of a state is the number of the transition that       *)
+(* discovered it: the printed <<nid, nid', action>> triples form a tree (trie of action paths) over all transitions. *)
+Do(a) == /\ LET r == Apply(st, a, Fresh(st, MaxRepl + 1)) IN
               /\ Len(r.st.ext) <= MaxExt        \* a rejected raw-pointer value comes back to the driver
               /\ st' = r.st
-         /\ path' = Append(path, a)
+         /\ last' = a
+         /\ nid' = TLCGetAndSet(1, LAMBDA x, y : x + y, 1, 0) + 1
 
 (* range argument instances: every (s, e) around the valid region in the requested forms *)
 RangeArgs(n) ==
@@ -61,11 +68,13 @@ RangeArgs(n) ==
 
 Paths == {"erased", "typed"}
 
+Others(x) == OneHandle => \A w \in Vecs \ {x} : st.v[w].h.k = "none"
+
 Next ==
-  \/ \E x \in Vecs : Quiet(st, x) /\
-       \/ "push" \in Alpha /\ (Len0(x) < MaxLen \/ Cfg.fixed) /\ \E src \in Srcs :
+  \/ \E x \in Vecs : Quiet(st, x) /\ Others(x) /\
+       \/ "push" \in Alpha /\ (Len0(x) < CapOf(x) \/ Cfg.fixed) /\ \E src \in Srcs :
             Do([op |-> "push", v |-> x, src |-> src])
-       \/ "insert" \in Alpha /\ (Len0(x) < MaxLen \/ Cfg.fixed) /\ \E src \in Srcs, i \in 0..(Len0(x) + 1) :
+       \/ "insert" \in Alpha /\ (Len0(x) < CapOf(x) \/ Cfg.fixed) /\ \E src \in Srcs, i \in 0..(Len0(x) + 1) :
             Do([op |-> "insert", v |-> x, i |-> i, src |-> src])
        \/ "pop" \in Alpha /\ Do([op |-> "pop_begin", v |-> x])
        \/ "remove" \in Alpha /\ \E i \in 0..(Len0(x) + 1) : Do([op |-> "remove_begin", v |-> x, i |-> i])
@@ -83,7 +92,7 @@ Next ==
             Do([op |-> "drain_begin", v |-> x, sk |-> r.sk, sv |-> r.sv, ek |-> r.ek, ev |-> r.ev, path |-> p])
        \/ "splice" \in Alpha /\ \E r \in RangeArgs(Len0(x)), p \in Paths, n \in 0..MaxRepl, src \in Srcs :
             /\ (p = "typed") = (src = "typed")
-            /\ (Cfg.fixed \/ Len0(x) + n <= MaxLen + 1)
+            /\ (Cfg.fixed \/ Len0(x) + n <= CapOf(x) + 1)
             /\ Do([op |-> "splice_begin", v |-> x, sk |-> r.sk, sv |-> r.sv, ek |-> r.ek, ev |-> r.ev, path |-> p, n |-> n, src |-> src])
        \/ "iter" \in Alpha /\ \E kind \in {"iter", "iter_mut", "titer", "titer_mut"} :
             Do([op |-> "iter_begin", v |-> x, kind |-> kind])
@@ -107,19 +116,20 @@ Next ==
        \/ Do([op |-> "iter_end", v |-> x])
   \/ "ext_drop" \in Alpha /\ st.ext # <<>> /\ Do([op |-> "ext_drop", v |-> CHOOSE x \in Vecs : TRUE])
 
-Init == st = Init0 /\ path = <<>>
+Init == st = Init0 /\ nid = 0 /\ last = [op |-> "init"]
 Spec == Init /\ [][Next]_vars
 
 (* every generated transition is a case for the harness *)
-Emit == PrintT(ToJson(path'))
+Emit == PrintT(<<nid, nid', ToJson(last')>>)
 
 ---------------------------------------------------------------------------
 (* shape view: identities replaced by their rank in scan order *)
 FirstIdx(s, x) == Min({i \in 1..Len(s) : s[i] = x})
 RankMap(s) == [x \in ToSet(s) |-> Cardinality({FirstIdx(s, y) : y \in ToSet(s)} \cap 1..FirstIdx(s, x))]
-RenS(m, s) == [i \in 1..Len(s) |-> <<m[s[i][1]], s[i][2]>>]
+MapId(m, id) == IF id \in DOMAIN m THEN m[id] ELSE 0     \* identities that already left a range handle
+RenS(m, s) == [i \in 1..Len(s) |-> <<MapId(m, s[i][1]), s[i][2]>>]
 RenH(m, H) ==
-  CASE H.k = "tmp"   -> [H EXCEPT !.held = <<m[@[1]], @[2]>>, !.rest = RenS(m, @), !.pre = RenS(m, @)]
+  CASE H.k = "tmp"   -> [H EXCEPT !.held = <<MapId(m, @[1]), @[2]>>, !.rest = RenS(m, @), !.pre = RenS(m, @)]
     [] H.k = "range" -> [H EXCEPT !.pre = RenS(m, @), !.repl = RenS(m, @), !.out = RenS(m, @)]
     [] H.k = "items" -> [H EXCEPT !.out = RenS(m, @)]
     [] OTHER -> H
@@ -139,7 +149,7 @@ HandleInv == \A x \in Vecs : LET H == st.v[x].h IN
                /\ H.k = "iter" => \A k \in 1..Len(H.its) : H.its[k].i <= H.its[k].e /\ H.its[k].e <= Len(st.v[x].el)
 (* an identity becomes leaked only by a forgetting step or a step that the contract allows to lose elements *)
 LeakOnlyBy == [][st'.leaked # st.leaked =>
-                   LET a == path'[Len(path')] IN
+                   LET a == last' IN
                    \/ a.op \in {"range_forget"} \/ (a.op \in {"consume", "next", "item_consume"} /\ a.sink.k = "forget")
                    \/ (a.op = "range_drop" /\ Cfg.fixed)]_vars
 =============================================================================
